@@ -19,6 +19,7 @@ type c13Spec struct {
 	Kind string `json:"kind"` // cropparam | soil | rotation | endit | weather | dates
 	File string `json:"file,omitempty"`
 	Var  int    `json:"var,omitempty"`
+	BBCH int    `json:"bbch,omitempty"` // cropparam: 1 = the end-of-phase BBCH codes of the classic file are kept on the phases 1, 2, 4, 6 only (or put there if the file has none); 2 = on the last phases only
 	Pre  string `json:"pre,omitempty"`  // cropparam: the crop grown before the crop under test ("" = winter wheat): ZR and CCM are the shipped files that set the optional keys (sub-organ, N-content coefficients, end stage)
 	Hist int    `json:"hist,omitempty"` // 1: all encodings run in ONE session that first ran another project (other column orders, formats, layout); 2: one session, encodings in reverse order
 }
@@ -35,6 +36,10 @@ func c13Specs(tier string, seed int) []c13Spec {
 		}
 		for _, pre := range []string{"ZR", "CCM"} {
 			out = append(out, c13Spec{Kind: "cropparam", File: f, Pre: pre})
+		}
+		// end-of-phase BBCH codes on some phases only (phase headlines with and without a code)
+		for bb := 1; bb <= 2; bb++ {
+			out = append(out, c13Spec{Kind: "cropparam", File: f, BBCH: bb})
 		}
 	}
 	for v := 0; v < len(c13Soils()); v++ {
@@ -453,7 +458,7 @@ func c13Run(raw json.RawMessage, c *mc.Ctx) {
 		label = fmt.Sprintf("project %d in the four date formats", sp.Var)
 	}
 	c.Eval(1)
-	h := mc.NewHasher().S(sp.Kind).S(sp.File).I(sp.Var).I(sp.Hist).S(sp.Pre).Sum()
+	h := mc.NewHasher().S(sp.Kind).S(sp.File).I(sp.Var).I(sp.Hist).S(sp.Pre).I(sp.BBCH).Sum()
 	c.State(h)
 	if len(encs) < 2 {
 		return
@@ -562,6 +567,34 @@ func c13CropParam(c *mc.Ctx, sp c13Spec, root string, run func(string, *proj.Pro
 		classic = []byte(strings.Join(lines, "\n"))
 		label = fmt.Sprintf("crop file %s (after winter wheat), variant with %d fields of group %s edited", sp.File, n, groups[sp.Var%len(groups)])
 	}
+	if sp.BBCH > 0 {
+		lines := strings.Split(strings.ReplaceAll(string(classic), "\r\n", "\n"), "\n")
+		ph := 0
+		for i, l := range lines {
+			if !strings.Contains(l, "Entwicklungsphase") || !strings.HasPrefix(strings.TrimSpace(l), "----") {
+				continue
+			}
+			ph++
+			for len(l) < 62 {
+				l += "-"
+			}
+			head := l[:62]
+			keep := map[int]bool{1: true, 2: true, 4: true, 6: true}[ph]
+			if sp.BBCH == 2 {
+				keep = ph >= 3
+			}
+			if keep {
+				l = head + fmt.Sprintf("   %02d", min(99, 5+ph*13))
+			} else {
+				l = head
+			}
+			lines[i] = l
+		}
+		classic = []byte(strings.Join(lines, "\n"))
+		label = fmt.Sprintf("crop file %s (after winter wheat), end-of-phase BBCH codes on some of its %d phases only (pattern %d)", sp.File, ph, sp.BBCH)
+		p.DailyCols = minimalDailyWith(append(strings.Split(c18Daily, ","), "BBCH")...)
+		p.Write(root)
+	}
 	os.WriteFile(filepath.Join(edit, sp.File), classic, 0o644)
 	p.Config["CropParameterFormat"] = "txt"
 	p.Write(root)
@@ -581,7 +614,7 @@ func c13CropParam(c *mc.Ctx, sp c13Spec, root string, run func(string, *proj.Pro
 	p.Config["CropParameterFormat"] = "yml"
 	p.Write(root)
 	run("converter-yaml", p, "parameter=param_edit")
-	if sp.Var == 0 {
+	if sp.Var == 0 && sp.BBCH == 0 {
 		os.Remove(filepath.Join(edit, sp.File+".yml"))
 		os.Symlink(filepath.Join(paramDir, sp.File+".yml"), filepath.Join(edit, sp.File+".yml"))
 		run("shipped-yaml", p, "parameter=param_edit")
